@@ -123,6 +123,14 @@ CLAIMED['C07'] = (
     TRUST + '; A2; M-RNG stubs; FP ops uninterpreted. NOT claimed (not decidable by a solver): uniformity, variance, kurtosis, key balance, seed reproducibility',
     'bounded symbolic execution with a recording RNG stub (clang IR -> C -> CBMC) + SAT/SMT portfolio', 'DESIGN.md section 4, C07')
 
+CLAIMED['C16'] = (
+    'PARTIAL (small configurations). CBMC pointer / bounds / free checks are on in every query of every property (incl. n > N, n < 8 on the AVX2 path, '
+    'k = 2, layout grids); this check adds --memory-leak-check to: life cycles new..delete of every allocation-API type and array, key-switching / '
+    'bootstrapping / FFT keys with real key generation, the gate-level API; the evaluation entry points (bootstrapping incl. n > N, external products, '
+    'key switch, decomposition); construction + destruction of the real nayuki and spqlios FFT processor objects; the AVX2 inline-asm loops under bounds checks.',
+    TRUST + '; A2; M-RNG stubs; FP ops uninterpreted for the processor objects. Outside: n = 500..1100 (same loops), the hand-written .s kernels, thread_local destructor scheduling by the C++ runtime, the fftw back-end',
+    'bounded symbolic execution with CBMC memory-safety and leak instrumentation (clang IR + inline asm -> C -> CBMC) + SAT/SMT portfolio', 'DESIGN.md section 4, C16')
+
 NOT_APPLICABLE = {
     'C02': 'statistical claim (mean/stdev/tail of the phase error of the real FFT pipeline at N=1024): a solver decides for-all/exists and the for-all version is false; its deterministic mechanisms are decided under C12, C08, C07, C19, C01',
     'C10': 'double-precision rounding error of 2048-point FFTs, three of five back-ends being hand-written AVX/FMA assembly or FFTW: bit-precise FP is out of solver reach beyond N~2 and a sound real-arithmetic over-approximation exceeds the stated 2 units',
